@@ -182,6 +182,7 @@ func runScenario(sc scenario) func(t *testing.T, x *gate.Exec) {
 		size := sc.N
 		var mu sync.Mutex
 		var got []delivery
+		var kept []scanner.EntryBatch
 		ctx, cancel := context.WithCancel(context.Background())
 		defer cancel()
 		fopts := scanner.FetcherOptions{BatchSize: sc.Batch, ParallelFetch: sc.Fetchers, StartIndex: sc.Start, EndIndex: sc.End, Continuous: sc.Continuous}
@@ -197,6 +198,9 @@ func runScenario(sc scenario) func(t *testing.T, x *gate.Exec) {
 					for i, e := range b.Entries {
 						got = append(got, delivery{b.Start + int64(i), string(e.LeafInput) + "|" + string(e.ExtraData), "batch"})
 					}
+					// a consumer may keep the batch it was handed (the migration controller queues
+					// it on a channel): the bytes must still be the log's when read later
+					kept = append(kept, b)
 					mu.Unlock()
 				})
 			} else {
@@ -397,6 +401,14 @@ func runScenario(sc scenario) func(t *testing.T, x *gate.Exec) {
 		if !isFinished() {
 			time.Sleep(2 * time.Hour)
 			synctest.Wait()
+		}
+		for _, b := range kept {
+			for i, e := range b.Entries {
+				idx := b.Start + int64(i)
+				if idx < 0 || idx >= int64(len(stored)) || string(e.LeafInput) != string(stored[idx].LeafInput) || string(e.ExtraData) != string(stored[idx].ExtraData) {
+					x.Violation("retained-batch-overwritten", "%v: the batch delivered for index %d no longer holds the log's bytes for that index when read after the scan (a buffer handed to the callback was reused)", sc, idx)
+				}
+			}
 		}
 		oracle(sc, x, lg, got, size, isFinished(), runErr, stopped, cancelled, firstSTHFailed, idlePolls >= 2 && growIdx >= len(sc.Grow))
 	}
